@@ -104,18 +104,16 @@ def get_minimal_hops_to_goal(topology, sensitive_addresses):
         if subset & (subset - 1) == 0:
             # single subnet, already initialized
             continue
-        for v in range(num_subnets):
-            # merge two smaller trees at subnet v
-            part = (subset - 1) & subset
-            while part > 0:
-                size = tree_size[part][v] + tree_size[subset ^ part][v]
-                if size < tree_size[subset][v]:
-                    tree_size[subset][v] = size
-                part = (part - 1) & subset
+        best = tree_size[subset]
+        # merge two smaller trees (at every subnet at once)
+        part = (subset - 1) & subset
+        while part > 0:
+            rest = subset ^ part
+            if part < rest:
+                np.minimum(best, tree_size[part] + tree_size[rest], out=best)
+            part = (part - 1) & subset
         # extend tree along shortest path to each subnet
-        merged = tree_size[subset].copy()
-        for v in range(num_subnets):
-            tree_size[subset][v] = np.min(merged + distance[:, v])
+        tree_size[subset] = np.min(best[:, None] + distance, axis=0)
 
     shortest = int(np.min(tree_size[full_set]))
     return min(shortest, max_value)
